@@ -109,8 +109,8 @@ static uint64_t caller_digest(const ctx_t *c)
     if (c->haveA) { h = h * 31 + fnv(c->a, c->nnz * sizeof(val_t)); h = h * 31 + fnv(c->idx, c->nnz * sizeof(int_t)); h = h * 31 + fnv(c->ptr, (outer + 1) * sizeof(int_t)); }
     if (c->haveB) { long tot = (long)c->ldb * c->nrhs, totx = (long)c->ldx * c->nrhs; h = h * 31 + fnv(c->b, tot * sizeof(val_t)); h = h * 31 + fnv(c->x, totx * sizeof(val_t)); }
     if (c->perm_c) {
-        h = h * 31 + fnv(c->perm_c, 64 * sizeof(int)); h = h * 31 + fnv(c->perm_r, 64 * sizeof(int)); h = h * 31 + fnv(c->etree, 64 * sizeof(int));
-        h = h * 31 + fnv(c->R, 64 * sizeof(real_t)); h = h * 31 + fnv(c->C, 64 * sizeof(real_t)); h = h * 31 + (uint64_t)c->equed[0];
+        h = h * 31 + fnv(c->perm_c, MAXN * sizeof(int)); h = h * 31 + fnv(c->perm_r, MAXN * sizeof(int)); h = h * 31 + fnv(c->etree, MAXN * sizeof(int));
+        h = h * 31 + fnv(c->R, MAXN * sizeof(real_t)); h = h * 31 + fnv(c->C, MAXN * sizeof(real_t)); h = h * 31 + (uint64_t)c->equed[0];
         h = h * 31 + fnv(c->ferr, 16 * sizeof(real_t)); h = h * 31 + fnv(c->berr, 16 * sizeof(real_t));
     }
     h = h * 31 + Ldig(c, 0); h = h * 31 + Ldig(c, 1); h = h * 31 + Udig(c, 0); h = h * 31 + Udig(c, 1);
@@ -151,7 +151,7 @@ static void call_screen(const char *fn, char *args)
     fprintf(OUT, "{\"e\":\"Ret\",\"id\":\"%s\",\"fn\":\"screen\",\"routine\":\"%s\",\"ty\":\"" TYCH "\",\"n\":%d,\"info\":%lld,\"unchanged\":%d,\"live_delta\":%ld,\"bad_frees\":%ld,\"fact\":%d",
             g_id, fn, c->n, info, d0 == d1, l.live_blocks - live0, l.bad_frees, (int)c->opt.Fact);
     corr_json();
-    fputs("}\n", OUT);
+    ENDLINE();
     g_ncorrupt = 0;
 }
 
@@ -171,7 +171,7 @@ static void call_equ(void)
     jreals("R", c->R, c->m); jreals("C", c->C, c->n);
     fputs(",\"rowcnd\":", OUT); jnum(rowcnd); fputs(",\"colcnd\":", OUT); jnum(colcnd); fputs(",\"amax\":", OUT); jnum(amax);
     ledger_json(c);
-    fputs("}\n", OUT);
+    ENDLINE();
     free_snap(&s);
 }
 
@@ -188,7 +188,7 @@ static void call_gscon(char *args)
     fprintf(OUT, ",\"factors_same\":%d", dl == Ldig(c, 0) && du == Udig(c, 0));
     A_json("A0", c); jints("perm_c", c->perm_c, c->n); jints("perm_r", c->perm_r, c->m);
     LU_json(c); ledger_json(c);
-    fputs("}\n", OUT);
+    ENDLINE();
 }
 
 /* the norm estimator driven directly with an explicit operator: the current matrix (dense use of its entries) plays
@@ -224,7 +224,7 @@ static void call_lacon(void)
         memcpy(x, y, n * sizeof(val_t));
     } while (1);
     fprintf(OUT, "],\"nrounds\":%d,\"est\":", rounds); jnum((double)est);
-    fputs("}\n", OUT);
+    ENDLINE();
     free(v); free(x); free(y); free(isgn);
 }
 
@@ -243,7 +243,7 @@ static void call_trsv(char *args)
     fprintf(OUT, ",\"factors_same\":%d,\"outside_same\":%d", dl == (Ldig(c, 0) ^ Ldig(c, 1)) && du == (Udig(c, 0) ^ Udig(c, 1)), dout == vec_outside_digest(&VX));
     jints("perm_c", c->perm_c, c->n); jints("perm_r", c->perm_r, c->m);
     LU_json(c); ledger_json(c);
-    fputs("}\n", OUT);
+    ENDLINE();
     free(x0);
 }
 static void call_gemv(char *args)
@@ -261,7 +261,7 @@ static void call_gemv(char *args)
     A_json("A0", c); vec_json("x", &VX); jvals("y0", y0, VY.len); vec_json("y1", &VY);
     fprintf(OUT, ",\"A_same\":%d,\"x_same\":%d,\"outside_same\":%d", da == fnv(c->a, c->nnz * sizeof(val_t)), dxo == fnv(VX.raw, VX.rawlen * sizeof(val_t)), dyo == vec_outside_digest(&VY));
     ledger_json(c);
-    fputs("}\n", OUT);
+    ENDLINE();
     free(y0);
 }
 /* C := alpha*op(A)*B + beta*C with dense B (k x ncolB, ldb) and C (m x ncolB, ldc) given through VX (as B) and VC */
@@ -283,7 +283,7 @@ static void call_gemm(char *args)
     A_json("A0", c); vec_json("B", &VX); jvals("C0", c0, VC.len); vec_json("C1", &VC);
     fprintf(OUT, ",\"B_same\":%d", dxo == fnv(VX.raw, VX.rawlen * sizeof(val_t)));
     ledger_json(c);
-    fputs("}\n", OUT);
+    ENDLINE();
     free(c0);
 }
 
@@ -291,12 +291,12 @@ static void call_gemm(char *args)
 static void call_order(char *args)
 {
     ctx_t *c = cx; int method = atoi(args); SuperMatrix AC;
-    int *pc_in = malloc(64 * sizeof(int)); memcpy(pc_in, c->perm_c, 64 * sizeof(int));
-    int *et_in = malloc(64 * sizeof(int)); memcpy(et_in, c->etree, 64 * sizeof(int));
+    int *pc_in = malloc(MAXN * sizeof(int)); memcpy(pc_in, c->perm_c, MAXN * sizeof(int));
+    int *et_in = malloc(MAXN * sizeof(int)); memcpy(et_in, c->etree, MAXN * sizeof(int));
     c->ledger_mark = slu_v_mark();
     c->opt.ColPerm = (colperm_t)method;
     if (method != MY_PERMC && c->opt.Fact == DOFACT) get_perm_c(method, &c->A, c->perm_c);
-    int *pc_mid = malloc(64 * sizeof(int)); memcpy(pc_mid, c->perm_c, 64 * sizeof(int));
+    int *pc_mid = malloc(MAXN * sizeof(int)); memcpy(pc_mid, c->perm_c, MAXN * sizeof(int));
     sp_preorder(&c->opt, &c->A, c->perm_c, c->etree, &AC);
     NCPformat *S = AC.Store;
     common_head("order", c);
@@ -307,7 +307,7 @@ static void call_order(char *args)
     fprintf(OUT, ",\"AC_shares_arrays\":%d,\"AC_nnz\":%lld,\"AC_dims\":[%d,%d]", S->nzval == (void *)c->a && S->rowind == c->idx, (long long)S->nnz, AC.nrow, AC.ncol);
     Destroy_CompCol_Permuted(&AC);
     ledger_json(c);
-    fputs("}\n", OUT);
+    ENDLINE();
     free(pc_in); free(pc_mid); free(et_in);
 }
 static void call_struct(int which)
@@ -323,7 +323,7 @@ static void call_struct(int which)
     if (bp) SUPERLU_FREE(bp);
     if (bi && bnz) SUPERLU_FREE(bi);
     ledger_json(c);
-    fputs("}\n", OUT);
+    ENDLINE();
 }
 
 /* ------------------------------------------------------------------ MC64 (C17) */
@@ -347,7 +347,7 @@ static void call_ldperm(char *args)
     fprintf(OUT, ",\"arrays_same\":%d,\"values_same\":%d", dp == fnv(c->ptr, (n + 1) * sizeof(int_t)) && di == fnv(c->idx, c->nnz * sizeof(int_t)), da == fnv(c->a, c->nnz * sizeof(val_t)));
     SUPERLU_FREE(perm); SUPERLU_FREE(u); SUPERLU_FREE(v);
     ledger_json(c);
-    fputs("}\n", OUT);
+    ENDLINE();
 }
 
 /* ------------------------------------------------------------------ readers (C16) */
@@ -395,7 +395,7 @@ static void call_read(char *args)
     }
     own(a); own(asub); own(xa);
     ctx_t tmp; memset(&tmp, 0, sizeof tmp); tmp.ledger_mark = mark; ledger_json(&tmp);
-    fputs("}\n", OUT);
+    ENDLINE();
     if (a) SUPERLU_FREE(a); if (asub) SUPERLU_FREE(asub); if (xa) SUPERLU_FREE(xa);
 }
 
